@@ -37,15 +37,13 @@ def _run(args):
 
 def base_files(tier):
     files = corpus.files()
-    try:
-        from . import gen
-
-        files = files + gen.write_base_programs(os.path.join(common.BUILD, "c10_gen"), tier)
-    except ImportError:
-        pass
     if tier != "thorough":
         files = [f for i, f in enumerate(files) if i % 2 == 0]
-    return files
+    from . import gen
+
+    # every level-1 generated program (each atom alone) is a base in both tiers: file-end and block-end effects depend on
+    # which construct comes last
+    return files + gen.write_base_programs(os.path.join(common.BUILD, "c10_gen"), tier)
 
 
 def classify(pr):
